@@ -3,8 +3,8 @@ EXTENDS Memory, TLC, Json
 \* ranks with a tie and an infinite value
 FQ == (1 :> 2) @@ (2 :> 1) @@ (3 :> 2)
 FT == (1 :> 2) @@ (2 :> 1) @@ (3 :> 2) @@ (4 :> 1000000)
-McView == <<pop, best, arch, shownK>>
-St  == [pop |-> pop, best |-> best, arch |-> arch, shownK |-> shownK]
-StP == [pop |-> pop', best |-> best', arch |-> arch', shownK |-> shownK']
+McView == <<pop, best, arch, shownK, reg>>
+St  == [pop |-> pop, best |-> best, arch |-> arch, shownK |-> shownK, reg |-> reg]
+StP == [pop |-> pop', best |-> best', arch |-> arch', shownK |-> shownK', reg |-> reg']
 PrintEdge == PrintT(<<"EDGE", ToJson([from |-> St, act |-> act', res |-> res', to |-> StP])>>)
 =============================================================================
